@@ -298,6 +298,15 @@ Theorem C11_trace_acceptor_all_parked : forall cf sched t,
 Proof. exact trace_all_parked. Qed.
 Print Assumptions C11_trace_acceptor_all_parked.
 
+(* the reported sites are the sites of the acting threads in the successive states, and a reported site 0
+   means the acting thread has finished — the implementation logs only sites >= 1, so such an event is
+   always rejected by the comparison, never accepted vacuously *)
+Theorem C11_trace_sites_are_real : forall cf sched,
+  fst (lock_trace cf sched (binit cf) []) = sites cf sched (binit cf) /\
+  sites_final cf sched (binit cf).
+Proof. exact trace_sites. Qed.
+Print Assumptions C11_trace_sites_are_real.
+
 Example C11_site0_example :
   zero tr_cf (binit_shared tr_cf) 0 (BSig KEnd) = true /\ zero tr_cf (binit_shared tr_cf) 0 (BRun 0 0 3 3) = true /\
   zero tr_cf (binit_shared tr_cf) 0 (BSpawn 0) = true /\ zero tr_cf (binit_shared tr_cf) 0 (BSpawn 1) = false.
